@@ -3,12 +3,12 @@ import Driver.Common
 /-! `hwmodel stream`: one case per line, `<gens>|<steps>`.
 
 gens  ::= gen (";" gen)*        gen ::= instr ("," instr)*      (generator index = position)
-instr ::= y<i> | r<k> | f | F | q | o<v> | O<v> | u<v> | c | s<g>
+instr ::= y<i> | n<k> | r<k> | R<k> | X | f | F | q | o<v> | O<v> | u<v> | c | s<g>
           (`o`/`O`/`u` open a `with ctx.scope` / `async with ctx.scope` / `with ctx.updated` block, `c` closes the
            innermost one, blocks still open at the end are closed there; `s<g>` with `g` > own index: iterate a nested
            `ctx.stream` of generator `g`, otherwise a no-op)
 steps ::= step (" " step)*      step ::= <task>:<op>
-op    ::= a<v> | w<v> | u<v> | x | m<s>g<g> | n<s> | c<s> | z<s> | p | t<j>
+op    ::= a<v> | w<v> | u<v> | x | m<s>g<g> | n<s> | c<s> | z<s> | p | t<j> | k
 
 out: one token per step: `ok` `dead` `bad` `<FP>` `i<i>@<FP>` `stop` `err:<Name>`, each followed by
 `+done:<label>:<own>:<merged>` for every completion callback that fired in that step.
@@ -46,6 +46,9 @@ def buildGen (self : Nat) (later : List (Nat × List Instr)) (toks : List String
     match k with
     | "y" => cur := .yld arg :: cur
     | "r" => cur := .recd arg :: cur
+    | "R" => cur := .recd arg :: cur       -- the source is a factory function recording at call time: the call happens
+    | "X" => cur := .fail false :: cur     -- (or fails) inside the stream's scope, on the first resumption
+    | "n" => cur := .yld (900 + arg % 5) :: cur   -- yields None / 0 / "" / () / False: an item like any other
     | "f" => cur := .fail false :: cur
     | "F" => cur := .fail true :: cur
     | "q" => cur := .nop :: cur
@@ -92,6 +95,7 @@ def parseOp (tok : String) : Option Op :=
   | "z" => some (.abandon (num rest))
   | "p" => some .probe
   | "t" => some (.spawn (num rest))
+  | "k" => some .caught
   | _ => none
 
 def parseStep (tok : String) : Option Label :=
